@@ -737,7 +737,7 @@ def sys_program(calls, slots, req, ack, yields, variant):
     steps = []
 
     def F(k):
-        return [["F", frames_of(slots[k], req), []]] if slots[k] else []
+        return [["F", frames_of(slots[k], req, 10 * k), []]] if slots[k] else []
     if variant == 1:
         steps += F(0) + [["C"], ["A", 3]]
     else:
@@ -811,6 +811,37 @@ def gen_sys_plans(ctx):
                     add("sys-error-words-every-phase", calls, slots)
     ctx.exhaustive_parts.append(f"control words other than data / ack / alive (and short data / ack frames) at every phase of every client "
                                 f"program of 2-3 calls ({n2} executions)")
+    # (S2b) the gateway keeps acknowledging and answering every request (ack + data 7 ms after each write started) while one
+    # further item - a control word, an early ack, a foreign frame - arrives in one phase, in front of or behind the answer
+    n2b = 0
+    items = CTRL + ["ack", "ackE", "dO"]
+    for n in (2, 3):
+        for calls in itertools.product(CALLS, repeat=n):
+            if not any(c in ("W", "Wt") for c in calls):
+                continue
+            for k in range(n + 1):
+                for front in (0, 1):
+                    for rep in range(2):
+                        l = items[(n2b * 7 + rep * 5) % len(items)]
+                        n2b += 1
+                        slots = [[] for _ in range(n + 1)]
+                        for j, call in enumerate(calls):
+                            if call in ("W", "Wt"):
+                                slots[j + 1] = ["ack", "dT"]
+                        slots[k] = ([l] + slots[k]) if front else (slots[k] + [l])
+                        add("sys-gateway-keeps-acking", calls, slots)
+    ctx.exhaustive_parts.append(f"whole executions with a gateway that acks and answers every write: every client program of 2-3 calls with a "
+                                f"write x every phase x one further item (control words {CTRL}, early ack, wrong-echo ack, foreign data; "
+                                f"rotating) in front of / behind the answer of that phase ({n2b} executions)")
+    # (S2c) ack timeouts in the URI that are not whole seconds / not multiples of 100 ms: write without ack, write acked
+    # 3 ms before the deadline, read
+    for ack in (1, 250, 999, 1001, 1499, 1999, 60001, 90500):
+        for d in (None, -3 if ack > 10 else 0, 5):
+            steps = [["C"], ["A", 2], ["W", REQ_SHORT.hex(), None]]
+            steps += [["A", ack + 20]] if d is None else [["A", ack + d], ["F", frames_of(["ack", "dT"], REQ_SHORT), []], ["A", 30]]
+            steps += reads(1) + [["W", REQ_SHORT.hex(), None], ["A", ack + 20]]
+            plans.append(("sys-uri-ack-timeout-odd", {"sys": 1, "cfg": cfg(ack, 0), "pos": "sys-uri-ack", "labels": [] if d is None else ["ack", "dT"],
+                                                      "steps": steps}))
     # (S3) frames, then the end of the stream (before / after connect()), then calls
     n3 = 0
     for calls in itertools.product(CALLS, repeat=2):
@@ -900,9 +931,9 @@ def cfg(ack, yields):
     return {"src": SRC, "dst": DST, "ack": ack, "yields": int(yields)}
 
 
-def frames_of(labels, req):
+def frames_of(labels, req, n0=0):
     out = []
-    n = 0
+    n = n0
     for l in labels:
         a = alphabet(req, n)
         if l.startswith("d"):
@@ -1163,6 +1194,40 @@ def gen_plans(ctx):
                                      ["W", req2.hex(), None], ["A", 7], ["F", a2, []], ["A", ack + 20]] + reads(3)
                             plans.append(("late-ack-then-write", {"cfg": cfg(ack, y), "pos": "late-ack", "labels": list(pre) + ["ack", "ack", "dT"],
                                                                   "steps": steps}))
+    # (3d) a gateway that goes on acknowledging and answering: one ordinary exchange, then - while the tester is IDLE - a
+    # control word (every member of the enum and unknown words, empty / address / longer bodies), an early ack or a foreign
+    # frame, with frames queued in front of / behind it, optionally a read in between, then two more requests which the
+    # gateway acks and answers, and reads.  What is queued when a write starts is what its ack wait sees first.
+    n3d = 0
+    for l in CTRL + ["ack", "ackE", "ackP", "dO", "s21"]:
+        for pre in ((), ("dT",), ("dO",), ("ack",), ("dT", "ackE")):
+            for post in ((), ("dT",), ("ack",)):
+                for rd in (0, 1):
+                    ack, y, req = rot()
+                    n3d += 1
+                    answer = lambda n0: [["A", 7], ["F", frames_of(["ack", "dT"], req, n0), []], ["A", ack + 20]]
+                    idle = list(pre) + [l] + list(post)
+                    steps = ([["W", req.hex(), None]] + answer(0) + [["R", 40], ["A", 5], ["F", frames_of(idle, req, 10), []], ["A", 13]]
+                             + ([["R", 40], ["A", 5]] if rd else [])
+                             + [["W", req.hex(), None]] + answer(20) + [["R", 40], ["A", 5], ["W", req.hex(), ack + 77]] + answer(30) + reads(3))
+                    plans.append(("idle-item-gateway-keeps-acking", {"cfg": cfg(ack, 0), "pos": "idle-then-acked-writes",
+                                                                     "labels": ["ack", "dT"] + idle + ["ack", "dT", "ack", "dT"], "steps": steps}))
+    ctx.exhaustive_parts.append(f"a gateway that keeps acknowledging: an exchange, then while the tester is idle each of {len(CTRL)} control words "
+                                f"(all enum members other than data / ack / alive, unknown words; empty, address and longer bodies) or an early / "
+                                f"stale ack / foreign frame x 5 sets of frames queued in front x 3 behind x with / without a read in between, "
+                                f"then two acked and answered requests and reads ({n3d} plans)")
+    # (3e) ack timeouts from the URI that are no multiple of 100 / 1000 ms, below one second, above one minute: no ack
+    # (failure exactly at the deadline), ack 3 ms before, ack 5 ms after the deadline
+    n3e = 0
+    for ack in (1, 9, 250, 999, 1001, 1499, 1999, 59999, 60001, 90500):
+        for pos in ("between-write-and-ack", "just-before-ack-timeout", "after-ack-timeout"):
+            for labels in ((), ("ack",), ("dT", "ack")):
+                if ack < 10 and pos == "just-before-ack-timeout":
+                    continue
+                n3e += 1
+                plans.append(("uri-ack-timeout-odd", template(pos, labels, REQ_SHORT, ack, 0, caller=None if n3e % 3 else ack * 2 + 1)))
+    ctx.exhaustive_parts.append(f"ack timeouts 1, 9, 250, 999, 1001, 1499, 1999, 59999, 60001, 90500 ms from the URI x ack early / 3 ms before / "
+                                f"5 ms after the deadline / none ({n3e} plans)")
     # (4) seeded: full alphabet, longer sequences, frames spread over several positions, multi-splits
     LMAX = _pk(ctx, 4, 6, 6)
     for _ in range(_pk(ctx, 2500, 30000, 12000)):
